@@ -59,6 +59,10 @@ claimed={
    text="The real writeFileWithBackup is executed symbolically over a file-system model with a symbolic crash point, a symbolic failing call and symbolic original mode; the modelled directory must hold the complete original or complete new content at every crash point and error return, and the new content with the original mode after success. Counter-examples and sampled paths are replayed on the real file system under strace kill / error injection.",
    note="Trusted: gosym engine, z3, the file-system model (atomic POSIX rename, CreateTemp mode 0600). Complete for the call sequence of the working tree; one fault per run.",
    technique="symbolic execution of go/ssa over a file-system model with symbolic crash/fault points, SMT (z3); native replay with strace fault injection"),
+ "C38": dict(level="model_checking", ref="6 (C38)",
+   text="headerWriter.Write / headerReader.Read (with the real bufio.Reader, strconv.ParseInt, strings.TrimSpace, io.ReadFull), EncodeMessage/DecodeMessage, marshal and toWireError run symbolically: message streams read back through a reader cutting the bytes at symbolic positions; the full message variety incl. 2^53-boundary IDs; malformed streams (9 frames around a symbolic window) must give errors, never panics, and accepted payloads are exactly the declared bytes after the header.",
+   note="Trusted: gosym engine, z3, the contract model of encoding/json on wireCombined (the real encoding/json runs in native cross-validation and replay). One open known finding (int64 IDs coerced through float64).",
+   technique="symbolic execution of go/ssa with SMT (z3), contract stub for encoding/json; native replay with the real codec"),
 }
 na_default="check not built yet (work in progress)"
 na={}
